@@ -23,6 +23,8 @@ pub(crate) mod c13;
 pub(crate) mod c07;
 #[path = "/verif/harness/d/c16.rs"]
 pub(crate) mod c16;
+#[path = "/verif/harness/d/c09.rs"]
+pub(crate) mod c09;
 
 use vcore::{BatchPlan, Check};
 
@@ -73,6 +75,7 @@ pub(crate) fn verif_main(args: &[String]) -> i32 {
     let c13 = c13::RtrClient;
     let c07 = c07::FsmWire;
     let c16 = c16::Admission;
-    let checks: Vec<&dyn Check> = vec![&c08, &c01, &c10, &c13, &c07, &c16];
+    let c09 = c09::ExportRules;
+    let checks: Vec<&dyn Check> = vec![&c08, &c01, &c10, &c13, &c07, &c16, &c09];
     vcore::main_with(&checks, &plan, args)
 }
